@@ -458,6 +458,7 @@ type Case struct {
 	StopAfter     int            `json:"stop_after,omitempty"`
 	TimeoutMs     int            `json:"timeout_ms,omitempty"`
 	CheckLeaks    bool           `json:"check_leaks,omitempty"`
+	RegisterExt   bool           `json:"register_ext,omitempty"`
 	SchemaSDL     string         `json:"schema_sdl,omitempty"`
 	Introspection bool           `json:"introspection,omitempty"`
 	Deadline      bool           `json:"deadline,omitempty"`
@@ -477,6 +478,7 @@ type Result struct {
 	Order        []string          `json:"order,omitempty"`
 	Crashed      bool              `json:"crashed,omitempty"`
 	Ignored      []string          `json:"ignored,omitempty"`
+	Changed      []int             `json:"changed,omitempty"`
 	BatchRuns    int               `json:"batch_runs,omitempty"`
 	BatchDiffs   []BatchDiff       `json:"batch_diffs,omitempty"`
 }
